@@ -69,6 +69,7 @@ TEnv ==
        [] Ev.a = "D" -> CallerCancel("deadline") /\ UNCHANGED stalled
        [] Ev.a = "X" -> ForeignClose /\ UNCHANGED stalled
        [] Ev.a = "Z" -> Stall
+       [] Ev.a = "B" -> WBreak /\ UNCHANGED stalled
 
 TSilent == /\ \E x \in Roles : G_Once(x)
            /\ UNCHANGED <<l, tb, seen>>
